@@ -133,4 +133,51 @@ theorem genesis_deactivate_makes_tombstone (da : Bytes → Option Bytes) (cr : C
 /-- the excluded point is real: without the bound the successor of the largest sequence is the initial one -/
 example : nextSeq 18446744073709551615 = 0 := by decide
 
+/-! ## The end of the sequence space (F23)
+
+The handlers refuse to produce the wrapped sequence, so the bound `seq + 1 < 2^64` of the theorems above is not a
+hypothesis about the history any more: it follows from acceptance, for every sequence a `uint64` can hold. -/
+
+theorem nextSeq_of_noWrap {n : Nat} (hn : n < 2 ^ 64) (h : nextSeq n ≠ 0) : nextSeq n = n + 1 := by
+  unfold nextSeq wrap64 at *
+  have : n + 1 ≠ 18446744073709551616 := by
+    intro he; rw [he] at h; exact h (by decide)
+  omega
+
+/-- **A successful deactivation leaves a tombstone, whatever sequence the document had** (any `uint64`). -/
+theorem deactivate_makes_tombstone_total (da : Bytes → Option Bytes) (cr : Crypto) (s s' : State)
+    (did vmID sig fr : Bytes) (hty : seqOf s did < 2 ^ 64)
+    (h : deliver da cr s (.deactivate did vmID sig fr) = .ok s') : Dead s' did := by
+  obtain ⟨_, _, _, _, _, _, hp, hs1⟩ := deactivate_ok h
+  refine ⟨_, emptyDoc, by rw [hs1]; exact Map.get_set_eq _ _ _, rfl, emptyDoc_empty, ?_⟩
+  simp only
+  exact hp.noWrap
+
+/-- At the last sequence number updates and deactivations are refused (and, by `refused_is_noop`-style atomicity,
+change nothing): the document stays as it is rather than becoming re-creatable. -/
+theorem exhausted_refused (da : Bytes → Option Bytes) (cr : Crypto) (s : State) (did : Bytes)
+    (hmax : seqOf s did = 2 ^ 64 - 1) :
+    (∀ doc db vmID sig fr, (deliver da cr s (.update did doc db vmID sig fr)).isOk = false) ∧
+    (∀ vmID sig fr, (deliver da cr s (.deactivate did vmID sig fr)).isOk = false) := by
+  have hz : nextSeq (getDoc s did).seq = 0 := by
+    have : (getDoc s did).seq = 2 ^ 64 - 1 := hmax
+    rw [this]; decide
+  constructor
+  · intro doc db vmID sig fr
+    cases h3 : deliver da cr s (.update did doc db vmID sig fr) with
+    | ok s3 =>
+      obtain ⟨_, _, _, _, _, _, _, _, _, _, hp, _⟩ := update_ok h3
+      exact absurd hz hp.noWrap
+    | err e => rfl
+    | panic e => rfl
+  · intro vmID sig fr
+    cases h3 : deliver da cr s (.deactivate did vmID sig fr) with
+    | ok s3 =>
+      obtain ⟨_, _, _, _, _, _, hp, _⟩ := deactivate_ok h3
+      exact absurd hz hp.noWrap
+    | err e => rfl
+    | panic e => rfl
+
+example : (2 : Nat) ^ 64 - 1 < 2 ^ 64 := by decide   -- the hypothesis of `deactivate_makes_tombstone_total` at the boundary
+
 end Panacea.C05
